@@ -19,10 +19,11 @@ def builds_needed(tier):
 
 
 def bounds(tier):
-    return {"fixed_variant_lengths": "0..=4B+1" if tier == "thorough" else "0..=2B+1",
-            "patterns": 4 if tier == "thorough" else 2,
-            "blake2_outlen_x_keylen": "all (1..=64 x 0..=64, 1..=32 x 0..=32)" if tier == "thorough" else "{1,B/4,max-1,max} x {0,1,B/4,max-1,max}",
-            "long_lengths": "kB-1,kB,kB+1 for k in {8,64,512}; 65536" if tier == "thorough" else "kB-1,kB,kB+1 for k in {8,64}"}
+    return {"fixed_variant_lengths": "0..=8B+1" if tier == "thorough" else "0..=4B+1",
+            "patterns": 6 if tier == "thorough" else 2,
+            "blake2_outlen_x_keylen": "all (1..=64 x 0..=64, 1..=32 x 0..=32)",
+            "input_alignments": "byte offsets 1..=7 (quick) / 1..=63 (thorough) on boundary lengths",
+            "long_lengths": "kB-1,kB,kB+1 for k in {8,64,512,1024}; 65536, 65537, 131072" if tier == "thorough" else "kB-1,kB,kB+1 for k in {8,64,512}; 65536"}
 
 
 def validate_models(tier):
@@ -34,6 +35,7 @@ def shards(tier):
     sh += [("shard_b2dyn", ("b", lo)) for lo in range(0, 4)] + [("shard_b2dyn", ("s", lo)) for lo in range(0, 2)]
     sh += [("shard_b2bits", "b"), ("shard_b2bits", "s")]
     sh += [("shard_long", v) for v in FIXED_VARIANTS]
+    sh += [("shard_align", v) for v in FIXED_VARIANTS]
     return sh
 
 
@@ -44,8 +46,8 @@ def _nontrivial(ops, meta):
 def shard_fixed(variant, tier):
     ck = core.Checker(PROPERTY_ID)
     kind, oneshot, B, D = CTX[variant]
-    maxlen = 4 * B + 1 if tier == "thorough" else 2 * B + 1
-    pats = (2, 5, 1, 0) if tier == "thorough" else (2, 5)
+    maxlen = 8 * B + 1 if tier == "thorough" else 4 * B + 1
+    pats = (2, 5, 1, 0, 6, 4) if tier == "thorough" else (2, 5)
     cases = []
     for k in pats:
         for n in range(maxlen + 1):
@@ -69,15 +71,14 @@ def shard_b2dyn(arg, tier):
     ck = core.Checker(PROPERTY_ID)
     B, mx = (128, 64) if which == "b" else (64, 32)
     nparts = 4 if which == "b" else 2
+    outlens = [o for o in range(1, mx + 1) if o % nparts == part]
+    keylens = list(range(0, mx + 1))
     if tier == "thorough":
-        outlens = [o for o in range(1, mx + 1) if o % nparts == part]
-        keylens = list(range(0, mx + 1))
         pats = (5, 2)
+        lens = [0, 1, 2, B - 2, B - 1, B, B + 1, 2 * B - 1, 2 * B, 2 * B + 1, 3 * B, 4 * B + 1]
     else:
-        outlens = [o for i, o in enumerate((1, mx // 4, mx - 1, mx)) if i % nparts == part]
-        keylens = [0, 1, mx // 4, mx - 1, mx]
         pats = (5,)
-    lens = [0, 1, B - 1, B, B + 1, 2 * B, 2 * B + 1]
+        lens = [0, 1, B - 1, B, B + 1, 2 * B, 2 * B + 1]
     kind = "b2bdyn" if which == "b" else "b2sdyn"
     static = "b2b_static" if which == "b" else "b2s_static"
     cases = []
@@ -126,8 +127,8 @@ def shard_b2bits(which, tier):
 def shard_long(variant, tier):
     ck = core.Checker(PROPERTY_ID)
     kind, oneshot, B, D = CTX[variant]
-    ks = (8, 64, 512) if tier == "thorough" else (8, 64)
-    lens = [k * B + d for k in ks for d in (-1, 0, 1)] + ([65536] if tier == "thorough" else [])
+    ks = (8, 64, 512, 1024) if tier == "thorough" else (8, 64, 512)
+    lens = [k * B + d for k in ks for d in (-1, 0, 1)] + ([65536, 65537, 131072] if tier == "thorough" else [65536])
     cases = []
     for n in lens:
         m = pat(5, 7, n)
@@ -139,6 +140,27 @@ def shard_long(variant, tier):
         ops += ["hnew s0 %s" % " ".join(kind), "update_mut s0 %s" % P(5, 7, n), "fin_reset s0"]
         exp += ["-", "-", d]
         cases.append((ops, exp, {"nt": True}))
+    ck.run(cases, nontrivial=_nontrivial)
+    ck.stats.states = len(cases)
+    return ck.stats
+
+
+def shard_align(variant, tier):
+    """the same digests from input slices at odd byte offsets (unaligned reads in the block loaders)"""
+    ck = core.Checker(PROPERTY_ID)
+    kind, oneshot, B, D = CTX[variant]
+    offs = range(1, 64) if tier == "thorough" else range(1, 8)
+    cases = []
+    for n in (1, B - 1, B, B + 1, 2 * B, 3 * B + 5, 4 * B + 1):
+        d = obs_of(hashes.digest(variant, pat(5, 0, n)))
+        for off in offs:
+            ops, exp = [], []
+            if oneshot:
+                ops.append("hash %s @%d:%s" % (oneshot, off, P(5, 0, n)))
+                exp.append(d)
+            ops += ["hnew s0 %s" % " ".join(kind), "update_mut s0 @%d:%s" % (off, P(5, 0, 1)), "update_mut s0 @%d:%s" % ((off * 7) % 64, P(5, 1, n - 1)), "fin s0"]
+            exp += ["-", "-", "-", d]
+            cases.append((ops, exp, {"nt": True}))
     ck.run(cases, nontrivial=_nontrivial)
     ck.stats.states = len(cases)
     return ck.stats
